@@ -106,6 +106,45 @@ fn tok_profile(profile: &str, seed: u64, n: usize, out: &mut dyn Write) {
                         wops.push(WOp::Probs);
                     }
                 }
+                "c12" => {
+                    // one family: the same segments re-spaced in several ways
+                    let nseg = crng.below(4);
+                    let mut segs: Vec<String> = vec![];
+                    for _ in 0..nseg {
+                        let mut w = String::new();
+                        for _ in 0..1 + crng.below(3) {
+                            if !d.surfaces.is_empty() && crng.chance(1, 2) {
+                                w.push_str(&d.surfaces[crng.below(d.surfaces.len())]);
+                            } else {
+                                loop {
+                                    let ch = *crng.pick(gen::ALPHA);
+                                    if ch != ' ' && ch != '\u{3000}' {
+                                        w.push(ch);
+                                        break;
+                                    }
+                                }
+                            }
+                        }
+                        segs.push(w);
+                    }
+                    let variants = 3 + crng.below(4);
+                    for _ in 0..variants {
+                        let mut sent = String::new();
+                        let run = |rng: &mut Rng, min: usize| -> String {
+                            let n = min + rng.below(3);
+                            (0..n).map(|_| if rng.chance(1, 3) { '\u{3000}' } else { ' ' }).collect()
+                        };
+                        sent.push_str(&run(&mut crng, 0));
+                        for (k, sg) in segs.iter().enumerate() {
+                            if k > 0 {
+                                sent.push_str(&run(&mut crng, 1));
+                            }
+                            sent.push_str(sg);
+                        }
+                        sent.push_str(&run(&mut crng, 0));
+                        wops.extend([WOp::Reset(sent), WOp::Tokenize, WOp::QueryTokens]);
+                    }
+                }
                 "c06" | "c08" | "c05" => {
                     let k = 1 + crng.below(4);
                     for _ in 0..k {
